@@ -178,7 +178,7 @@ def run_sched_part(chk, pid, exe, scale):
 def run_C13(chk):
     chk.prepare_model('Cctz.Properties.C13', THEOREMS['C13'])
     exe = chk.harness('san')
-    scale = chk.tier if not chk.broken else 'thorough'
+    scale = chk.tier if not (chk.broken or chk.degraded) else 'thorough'
     if exe is None or not getattr(chk, 'driver_ok', False):
         return chk.finish()
     good = run_sched_part(chk, 'C13', exe, scale)
@@ -216,7 +216,7 @@ def run_C13(chk):
 def run_C20(chk):
     chk.prepare_model('Cctz.Properties.C20', THEOREMS['C20'])
     exe = chk.harness('san')
-    scale = chk.tier if not chk.broken else 'thorough'
+    scale = chk.tier if not (chk.broken or chk.degraded) else 'thorough'
     if exe is None or not getattr(chk, 'driver_ok', False):
         return chk.finish()
     good = run_sched_part(chk, 'C20', exe, scale)
@@ -258,7 +258,7 @@ def leap_file():
 def run_C19(chk):
     chk.prepare_model('Cctz.Properties.C19', THEOREMS['C19'])
     exe = chk.harness('san')
-    scale = chk.tier if not chk.broken else 'thorough'
+    scale = chk.tier if not (chk.broken or chk.degraded) else 'thorough'
     if exe is None or not getattr(chk, 'driver_ok', False):
         return chk.finish()
     root = os.path.join(CACHE, 'c19-%d' % os.getpid())
